@@ -24,7 +24,7 @@ open PlzVerif.Query PlzVerif.Changes
 `HasAbsoluteSource`, `diffGraphs`, `targetChanged`, `sourceHash` statement by statement (parameters by position,
 locals by order of declaration), and the level bookkeeping of `FindRevdeps` (shared with C23). -/
 def FactsOK : Bool :=
-  genCfg == Cfg.std &&
+  genCfg == Cfg.std && !PlzVerif.Generated.C24.seedsFiltered &&
   PlzVerif.Generated.C24.changedTargets ==
     ["for _, v01 := range FILES { for v02 := v01; v02 != \".\" && v02 != \"/\"; { v02 = filepath.Dir(v02) v03 := v02 if v03 == \".\" { v03 = \"\" } if v04 := STATE.Graph.Package(v03, \"\"); v04 != nil { for _, v05 := range v04.AllTargets() { if v05.HasAbsoluteSource(v01) { CHANGED[v05] = struct{}{} } } break } } }",
      "F1 := make(core.BuildLabels, 0, len(CHANGED))",
@@ -71,19 +71,27 @@ theorem C24_facts_ok : FactsOK = true := by decide
 theorem cfg_std : genCfg = Cfg.std := by
   have h := C24_facts_ok
   simp only [FactsOK, Bool.and_eq_true, beq_iff_eq] at h
-  exact h.1.1.1.1.1.1.1.1
+  exact h.1.1.1.1.1.1.1.1.1
+
+theorem seeds_unfiltered : PlzVerif.Generated.C24.seedsFiltered = false := by
+  have h := C24_facts_ok
+  simp only [FactsOK, Bool.and_eq_true, Bool.not_eq_true'] at h
+  exact h.1.1.1.1.1.1.1.1.2
 
 /-- what `plz query changes` reports (ids; the real output is this set in label order) -/
 def reported (C : CGraph) (files : List Path) (changed0 : List Nat) (level : Option Limit) : List Nat :=
-  changedTargets genCfg C files changed0 level
+  changedTargets genCfg PlzVerif.Generated.C24.seedsFiltered C files changed0 level
 
-/-- The ownership lemma: a target that consumes a changed file, in the closest package above it, is marked changed
-(whatever the level). -/
+/-- The ownership lemma: a target that consumes a changed file, in the closest package above it, is reported whatever
+the level — unless the include/exclude filter hides it. -/
 theorem C24_ownership (C : CGraph) (files : List Path) (changed0 : List Nat) (level : Option Limit) (t : Nat) (f : Path)
-    (hf : f ∈ files) (ht : t ∈ C.G.nodes) (hc : Consumes C t f) (ho : Owner C t f) :
+    (hf : f ∈ files) (ht : t ∈ C.G.nodes) (hc : Consumes C t f) (ho : Owner C t f) (hi : C.incl t = true) :
     t ∈ reported C files changed0 level := by
   have hm := consumer_changed C files t f hf ht hc ho
   unfold reported changedTargets
+  rw [seeds_unfiltered]
+  simp only [Bool.false_eq_true, ite_false]
+  apply List.mem_filter.mpr ⟨?_, hi⟩
   cases level with
   | none => exact List.mem_append_right _ hm
   | some lim => exact List.mem_append_left _ (List.mem_append_right _ hm)
@@ -92,8 +100,17 @@ theorem C24_ownership (C : CGraph) (files : List Path) (changed0 : List Nat) (le
 affected.  PARTIAL with respect to the property text: `changed0` (what `diffGraphs` found through the rule and source
 hashes) is an input here; that half rests on C08/C09 and is known to fail for unframed rule-hash collisions (header). -/
 theorem C24_superset (C : CGraph) (files : List Path) (changed0 : List Nat) (h0 : ∀ t ∈ changed0, t ∈ C.G.nodes)
-    (t : Nat) (ha : Affected C files changed0 t) : t ∈ reported C files changed0 (some none) :=
-  changedTargets_superset genCfg C files changed0 h0 t ha
+    (t : Nat) (ha : Affected C files changed0 t) (hi : C.incl t = true) : t ∈ reported C files changed0 (some none) := by
+  unfold reported
+  rw [seeds_unfiltered]
+  exact changedTargets_superset genCfg C files changed0 h0 t ha hi
+
+/-- The include/exclude filter (`--include`, `--exclude`; `plz query changes` always excludes `manual`) only hides
+targets from the output: nothing it excludes is reported, and by `C24_superset` an excluded target still carries the change
+to the targets that depend on it. -/
+theorem C24_filter_output_only (C : CGraph) (files : List Path) (changed0 : List Nat) (level : Option Limit) (t : Nat)
+    (h : t ∈ reported C files changed0 level) : C.incl t = true :=
+  changedTargets_included genCfg _ C files changed0 level t h
 
 theorem closestPkg_some (C : CGraph) : ∀ (fuel : Nat) (dir d : Path), closestPkg C fuel dir = some d →
     d ∈ C.pkgs ∧ d <+: dir ∧ d ≠ dir := by
@@ -157,12 +174,14 @@ theorem C24_level0_sound (C : CGraph) (files : List Path) (t : Nat) (h : t ∈ c
 theorem C24_level0 (C : CGraph) (files : List Path) (changed0 : List Nat) (t : Nat)
     (h : t ∈ reported C files changed0 none) : t ∈ changed0 ∨ t ∈ changedByFiles C files := by
   unfold reported changedTargets at h
-  exact List.mem_append.mp h
+  rw [seeds_unfiltered] at h
+  simp only [Bool.false_eq_true, ite_false] at h
+  exact List.mem_append.mp (List.mem_filter.mp h).1
 
 /-- the shape of the repaired finding `changes-file-tool-not-a-source` (fixed): `//a:t` runs the local script `a/tool.sh`;
 the script changes; `//a:t` is reported. -/
 def gTool : Graph := { nodes := [0], adj := fun _ => [], pl := id, hid := fun _ => false }
-def cTool : CGraph := { G := gTool, pkgs := [["a"]], pkgOf := fun _ => ["a"], inputs := fun _ => [], tools := fun _ => [["tool.sh"]] }
+def cTool : CGraph := { G := gTool, pkgs := [["a"]], pkgOf := fun _ => ["a"], inputs := fun _ => [], tools := fun _ => [["tool.sh"]], incl := fun _ => true }
 
 example : reported cTool [["a", "tool.sh"]] [] (some none) = [0] := by decide
 example : Consumes cTool 0 ["a", "tool.sh"] := ⟨["tool.sh"], by decide, by decide, [], rfl⟩
@@ -171,7 +190,7 @@ example : Consumes cTool 0 ["a", "tool.sh"] := ⟨["tool.sh"], by decide, by dec
 -- (in `a/b`) has `x.go`, target 2 depends on 0, target 3 on 2.
 def gEx : Graph := { nodes := [0, 1, 2, 3], adj := fun | 2 => [0] | 3 => [2] | _ => [], pl := id, hid := fun _ => false }
 def cEx : CGraph := { G := gEx, pkgs := [["a"], ["a", "b"]], pkgOf := fun | 1 => ["a", "b"] | _ => ["a"],
-                      inputs := fun | 0 => [["dir"]] | 1 => [["x.go"]] | _ => [], tools := fun _ => [] }
+                      inputs := fun | 0 => [["dir"]] | 1 => [["x.go"]] | _ => [], tools := fun _ => [], incl := fun _ => true }
 
 example : reported cEx [["a", "dir", "sub", "w.go"]] [] (some none) = [0, 3, 2] := by decide
 example : reported cEx [["a", "b", "x.go"]] [] (some none) = [1] := by decide
@@ -181,5 +200,13 @@ example : Consumes cEx 0 ["a", "dir", "sub", "w.go"] ∧ Owner cEx 0 ["a", "dir"
 example : Affected cEx [["a", "dir", "sub", "w.go"]] [] 3 :=
   .dependent (x := 2) (.dependent (x := 0) (.consumer (f := ["a", "dir", "sub", "w.go"]) (by simp) (by decide)
     ⟨["dir"], by decide, by decide, ["sub", "w.go"], rfl⟩ ⟨by decide, by decide⟩) (by decide) (by decide)) (by decide) (by decide)
+
+-- the filter: target 0 (the consumer of the changed file) carries an excluded label; its dependants are still reported
+def cExF : CGraph := { cEx with incl := fun t => t != 0 }
+example : reported cExF [["a", "dir", "sub", "w.go"]] [] (some none) = [3, 2] := by decide
+/-- what filtering the seeds before the walk would report: nothing -/
+example : changedTargets genCfg true cExF [["a", "dir", "sub", "w.go"]] [] (some none) = [] := by decide
+example : shouldInclude ["manual", "go"] [] [["manual"]] = false ∧ shouldInclude ["go"] [["go"]] [["manual"]] = true ∧
+    shouldInclude ["py"] [["go"], ["py", "x"]] [] = false := by decide
 
 end PlzVerif.Props.C24
